@@ -10,6 +10,7 @@ CONSTANTS
   ExtNames = {"a"}
   MaxFiles = {0, 2, 1000000}
   FaultSet <- FaultsAll
+  Restarts = {"keep"}
   WhatIf = "none"
 SPECIFICATION Spec
 INVARIANT NoViolation
